@@ -283,7 +283,14 @@ impl Gen {
             0 => format!("n{}.t", self.fresh),
             1 => format!("NEW{:05}.DAT", self.fresh),
             2 if !dir => format!("X{}.", self.fresh),
-            3 => format!("\u{c9}T\u{c9}{}.TXT", self.fresh),
+            3 => {
+                if self.rng.chance(1, 3) {
+                    // first character 0xE5: stored as 0x05 (a stored 0xE5 would mark the slot deleted)
+                    format!("\u{e5}{}.TXT", self.fresh)
+                } else {
+                    format!("\u{c9}T\u{c9}{}.TXT", self.fresh)
+                }
+            }
             _ => {
                 if dir {
                     format!("D{}", self.fresh)
